@@ -9,11 +9,11 @@ paste() {
   if [ "$mode" = append ]; then cat "$out/demo.rs" >> "$file"
   else head -n -1 "$file" > /tmp/paste.$$; cat "$out/demo.rs" >> /tmp/paste.$$; echo "}" >> /tmp/paste.$$; cp /tmp/paste.$$ "$file"; rm -f /tmp/paste.$$; fi; }
 git apply "$out/patch.diff" && echo "patch applies" >> "$res"
-cargo test --offline -p worterbuch --lib 2>&1 | grep -E "^test result|error" | head -3 | sed 's/^/with patch, existing lib tests: /' >> "$res"
+cargo test --offline -p ${PKG:-worterbuch} --lib 2>&1 | grep -E "^test result|error" | head -3 | sed 's/^/with patch, existing lib tests: /' >> "$res"
 paste
-cargo test --offline -p worterbuch --lib "$filt" 2>&1 | grep -E "^test result|error\[" | head -3 | sed 's/^/with patch + demo: /' >> "$res"
+cargo test --offline -p ${PKG:-worterbuch} --lib "$filt" 2>&1 | grep -E "^test result|error\[" | head -3 | sed 's/^/with patch + demo: /' >> "$res"
 git checkout -q -- .
 paste
-cargo test --offline -p worterbuch --lib "$filt" 2>&1 | grep -E "^test result|error\[" | head -3 | sed 's/^/without patch + demo: /' >> "$res"
+cargo test --offline -p ${PKG:-worterbuch} --lib "$filt" 2>&1 | grep -E "^test result|error\[" | head -3 | sed 's/^/without patch + demo: /' >> "$res"
 git checkout -q -- .
 cat "$res"
